@@ -346,6 +346,25 @@ def decoder(R, P):
         R.check(okv and n >= 2, "WELL-FORMED", "s_base64_get_decoded_value:accepts-symbols-only", "%s()" % g.name, "succeeds only for alphabet symbols, or the sentinel when allow_sentinel is non-zero (%d success states)" % n)
 
 
+def digit_results(R, P):
+    """WELL-FORMED/hex: the verdict of the hex digit reader is tested at every call: an invalid character anywhere - also the
+    leading nibble of odd-length text - rejects the text"""
+    n = 0
+    for f in P.functions_in(ENC):
+        refd = set()
+        for b in f.blocks.values():
+            for el in list(b.elems) + ([b.cond] if b.cond is not None else []):
+                for x in f.walk(el):
+                    if x["k"] == "ref":
+                        refd.add(x["id"])
+        for e in f.calls({"s_hex_decode_char_to_int", "s_base64_get_decoded_value"}):
+            n += 1
+            used = e.node["id"] in refd or not any(el is e.node for b in f.blocks.values() for el in b.elems)
+            R.check(used, "WELL-FORMED", "%s:%s-result-tested:line%d" % (f.name, e.node["callee"], e.node.get("loc", [0])[0]), where(f, e), "the digit reader's verdict is tested",
+                    "the result of %s is dropped: a character that is not a digit is decoded as 0 instead of rejecting the text" % e.node["callee"])
+    R.require(n >= 3, "only %d digit-reader calls found in encoding.c" % n)
+
+
 def dispatch(R, P):
     for name, lenfn, kern in (("aws_base64_encode", "aws_base64_compute_encoded_len", "aws_common_private_base64_encode_sse41"), ("aws_base64_decode", "aws_base64_compute_decoded_len", "aws_common_private_base64_decode_sse41")):
         f = P.fn(name)
@@ -478,6 +497,7 @@ def avx_shell(R, P):
             bad = [r_ for r_ in res if not r_[0]]
             R.check(not bad, "AVX-SHELL", "%s:loop@%s:progress" % (name, (B.term_loc or [0])[0]), "%s:%s" % (AVX, (B.term_loc or [0])[0]), "every iteration consumes input")
     pad_tail(R, P)
+    tail_checks(R, P)
     helper_contracts(R, P)
     # the contract assumed above holds at the call sites
     for caller, kern, chk in (("aws_base64_encode", "aws_common_private_base64_encode_sse41", "enc"), ("aws_base64_decode", "aws_common_private_base64_decode_sse41", "dec")):
@@ -523,6 +543,46 @@ def avx_shell(R, P):
             ok = ok and any(z.blk in inner and ev_dominates(f, z, c, dom) for z in clr)
         R.check(ok, "AVX-SHELL", "encode_sse41:bounce-buffer-cleared-per-iteration", where(f, cps[0]) if cps else f.name, "the partial copy into the bounce buffer follows a clear in the same loop iteration",
                 "the bounce buffer is partially overwritten without being cleared in that iteration: bytes of the previous stride leak into the encoding")
+
+
+def tail_checks(R, P):
+    """the unused bits of the vectorised decoder's final quantum: every byte of the bounce output from the reported length
+    to its end is tested for zero (the loop starts exactly at final_out, NUM)"""
+    name = "aws_common_private_base64_decode_sse41"
+    f = P.fn(name)
+    if f is None:
+        return
+    loops = Num(f, P, None).loops()
+    cand = []
+    for h, body in loops.items():
+        reads = [x for b in body for el in list(f.blocks[b].elems) + ([f.blocks[b].cond] if f.blocks[b].cond is not None else []) for x in f.walk(el, follow_refs=True) if x["k"] == "index" and "tmp_out" in f.show(x["a"][0])]
+        if reads and f.blocks[h].cond is not None and "sizeof" not in f.show(f.blocks[h].cond) and any(f.is_const(a) is not None for a in (f.d(f.blocks[h].cond) or {}).get("a", [])):
+            cand.append((h, body, reads))
+    if not R.require(len(cand) == 1, "%s: trailing-bits loop over tmp_out not found (%d candidates)" % (name, len(cand))):
+        return
+    h, body, reads = cand[0]
+    t = RU.cmp_norm(f, f.blocks[h].cond, True)
+    cnt = f.show(RU.uncast(f, t[0])) if t else None
+    decl = [e for e in f.all_events() if e.kind == "decl" and any(v["n"] == cnt for v in e.node["vars"])]
+    num = Num(f, P, AvxHooks(), max_paths=20000)
+    ok, det, n = False, "loop counter not found", 0
+    if decl:
+        try:
+            sts = num.states_at(set(), after_ids={decl[0].node["id"]})
+        except Limit as ex:
+            R.broken(str(ex))
+            return
+        ok = True
+        for st in sts.get(("after", decl[0].node["id"]), []):
+            i0, fo = st.env.get("v:" + cnt), st.env.get("v:final_out")
+            n += 1
+            if i0 is None or fo is None or not (entails(st, i0 - fo) and entails(st, fo - i0)):
+                ok, det = False, "the scan starts at %r, the reported length is %r" % (i0, fo)
+        bound = f.is_const(t[2]) if t and t[2] is not None else None
+        if not (t and t[1] == "<" and bound == 24):
+            ok, det = False, "the scan ends at %s" % (f.show(t[2]) if t and t[2] is not None else None)
+    R.check(ok and n > 0, "WELL-FORMED", "decode_sse41:unused-bits-checked-from-final_out", "%s in %s()" % (AVX, name), "every bounce-output byte from final_out to 24 is tested for zero (%d states)" % n,
+            "the trailing-bits test of the vectorised decoder does not cover all bytes behind the decoded length (%s): padded text with non-zero unused bits (`AB==`) is accepted by the vector path and rejected by the portable one" % det)
 
 
 def helper_contracts(R, P):
@@ -723,6 +783,7 @@ def analyse(ctx, replace=None, only=None):
         lengths(R, P)
     if on("REPORTED<=WRITTEN") or on("WELL-FORMED"):
         decoder(R, P)
+        digit_results(R, P)
     if on("DISPATCH"):
         dispatch(R, P)
     if on("AVX-SHELL"):
@@ -749,6 +810,8 @@ MUTANTS = [m for m in MUTANTS if m["name"] != "reported-more-than-written"]
 MUTANTS.append({"name": "decoded-len-ignores-second-pad", "file": ENC, "expect": "LENGTHS", "old": "        padding = 2;", "new": "        padding = 1;"})
 MUTANTS.append({"name": "avx-decode-loop-eats-padded-tail", "file": AVX, "expect": "AVX-SHELL", "old": "    while (len > 32) {", "new": "    while (len >= 32) {"})
 MUTANTS.append({"name": "avx-decode-helper-stores-whole-vector", "file": AVX, "expect": "AVX-SHELL", "old": "    _mm_storeu_si128((__m128i *)out, lo);\n    memcpy(out + 16, p_hi, sizeof(*p_hi));", "new": "    (void)lo;\n    (void)p_hi;\n    _mm256_storeu_si256((__m256i *)out, vec);"})
+MUTANTS.append({"name": "avx-trailing-bits-scan-starts-late", "file": AVX, "expect": "WELL-FORMED", "scope": {"rules": ["AVX-SHELL"]}, "old": "        for (size_t i = final_out; i < sizeof(tmp_out); i++) {", "new": "        for (size_t i = final_out + 1; i < sizeof(tmp_out); i++) {"})
+MUTANTS.append({"name": "hex-leading-nibble-unchecked", "file": ENC, "expect": "WELL-FORMED", "old": "        if (s_hex_decode_char_to_int((char)to_decode->ptr[0], &low_value)) {\n            return aws_raise_error(AWS_ERROR_INVALID_HEX_STR);\n        }\n", "new": "        s_hex_decode_char_to_int((char)to_decode->ptr[0], &low_value);\n"})
 MUTANTS.append({"name": "avx-bounce-clear-removed", "file": AVX, "expect": "AVX-SHELL", "old": "        memset(&instride, 0, sizeof(instride));\n", "new": ""})
 for _m in MUTANTS:
     _m.setdefault("scope", {"rules": [_m["expect"]]})
